@@ -578,7 +578,7 @@ def _pred(case, stats):
                 return
             want = base.snapshot()
             diff = [n for n in after if after[n] != want[n]]
-            if payload_malformed and not whole_failed:
+            if payload_malformed:
                 sig = 'malformed-request-altered-tags:service-payload:' + payload_malformed[0].get('why', 'other')
             elif any(op is not None and op.get('malformed') and op.get('svc') is None for op in ops):
                 sig = 'malformed-request-altered-tags:' + [op['why'] for op in ops if op is not None and op.get('malformed') and op.get('svc') is None][0]
@@ -687,10 +687,65 @@ def tcp_shard(job):
             t.close()
         except Exception as exc:
             s.fail('tcp', 'tcp:new-session-cannot-register', case, observed=str(exc)[:200], expected='new sessions are served')
+        same_port_reconnect(case, stream)
+
+    def same_port_reconnect(case, stream):
+        """A hostile session that ends abruptly (stream cut somewhere, then RST) followed by a new session from the very same
+        client address and port: the new session must be served like any other."""
+        import socket as _socket
+        import struct as _struct
+        import time as _time
+        cut = case.get('abort_at')
+        if cut is None:
+            return
+        h = _socket.socket(_socket.AF_INET, _socket.SOCK_STREAM)
+        h.setsockopt(_socket.SOL_SOCKET, _socket.SO_REUSEADDR, 1)
+        h.bind(('127.0.0.1', 0))
+        port = h.getsockname()[1]
+        try:
+            h.settimeout(5.0)
+            h.connect(srv.address)
+            data = stream[:cut % (len(stream) + 1)] if stream else b''
+            if not data:
+                data = rc.register()[:1 + cut % 23]             # a partial encapsulation header
+            try:
+                h.sendall(data)
+                _time.sleep(0.05)
+                h.setsockopt(_socket.SOL_SOCKET, _socket.SO_LINGER, _struct.pack('ii', 1, 0))      # close => RST
+            except OSError:
+                pass
+        finally:
+            h.close()
+        # the server's own connection table tells when the hostile session's thread is done (entry removed): the new session
+        # must not race with it.  If the entry never goes away, go on after 5 s: whether the next session is served decides.
+        key = '127_0_0_1_%d' % port
+        t0 = _time.time()
+        while _time.time() - t0 < 5.0 and dict.__contains__(srv.enip_main.connections, key):
+            _time.sleep(0.02)
+        s.count('tcp:same-port-reconnect')
+        n = _socket.socket(_socket.AF_INET, _socket.SOCK_STREAM)
+        n.setsockopt(_socket.SOL_SOCKET, _socket.SO_REUSEADDR, 1)
+        try:
+            try:
+                n.bind(('127.0.0.1', port))
+                n.settimeout(5.0)
+                n.connect(srv.address)
+            except OSError as exc:
+                s.count('tcp:same-port-reconnect:port-not-reusable')       # harness-side (TIME_WAIT etc.): not judged
+                return
+            n.sendall(rc.register())
+            fr, _, eof = sim.recv_frames(n, 1, 5.0)
+            ok = bool(fr) and rc.dec_encap(fr[0])['command'] == 0x65 and rc.dec_encap(fr[0])['status'] == 0 and rc.dec_encap(fr[0])['session'] != 0
+            if not ok:
+                s.fail('tcp', 'tcp:session-from-the-address-of-an-aborted-session-not-served', case,
+                       observed={'reply_frames': len(fr), 'closed': bool(eof), 'aborted_after_bytes': len(data)},
+                       expected='Register Session answered with a session handle')
+        finally:
+            n.close()
 
     @hypothesis.seed(seed)
     @common.hyp_settings(n)
-    @given(cases(4))
+    @given(st.builds(lambda c, a: dict(c, abort_at=a), cases(4), st.one_of(st.none(), st.integers(0, 2000))))
     def explore(case):
         common.run_pred(lambda c, st_: one(c), case, s, 'tcp')
 
@@ -782,5 +837,5 @@ def run(tier, seed):
         jobs = ([('hyp', seed, i, 3000, 8) for i in range(24)] + [('tcp', common.shard_seed(seed, 900 + i), 600) for i in range(2)] +
                 [('fuzz', common.shard_seed(seed, 700 + i), 40000, i % 2 == 0) for i in range(6)])
     else:
-        jobs = [('hyp', seed, i, 130, 6) for i in range(15)] + [('tcp', common.shard_seed(seed, 900), 150)]
+        jobs = [('hyp', seed, i, 400, 6) for i in range(14)] + [('tcp', common.shard_seed(seed, 900 + i), 100) for i in range(2)]
     return common.parallel(shard, jobs)
